@@ -115,6 +115,8 @@ type FakeConsensus struct {
 	S       *SharedState
 	Trusted func(peer.ID) bool
 	PeerOps []string
+	// NeverReady makes Ready() return a channel that is never closed (consensus that cannot bootstrap).
+	NeverReady bool
 }
 
 var _ ipfscluster.Consensus = (*FakeConsensus)(nil)
@@ -122,7 +124,9 @@ var _ ipfscluster.Consensus = (*FakeConsensus)(nil)
 // Ready is immediately ready.
 func (c *FakeConsensus) Ready(context.Context) <-chan struct{} {
 	ch := make(chan struct{})
-	close(ch)
+	if !c.NeverReady {
+		close(ch)
+	}
 	return ch
 }
 
